@@ -391,16 +391,6 @@ Proof. intros E X K k l1 l2 vs st H. simpl. destruct (cexec_inst E X K k vs st);
 
 Definition is_plain_unknown (o : opc) : bool := is_unknown o && negb (is_call_op o).
 
-Definition ccross_ok (p i : inst) : bool :=
-  if is_plain_unknown (i_op p) then true
-  else if is_simple (i_op p) then
-    if is_simple (i_op i) then
-      indepb p i && disjointb (sem_writes (i_op p)) (FP (i_op i)) && disjointb (sem_writes (i_op i)) (FP (i_op p))
-    else if is_guard (i_op i) then disj (i_outs p) (op_vars (i_args i))
-    else if is_invoke (i_op i) then nilb (FP (i_op p)) && indepb p i
-    else is_plain_unknown (i_op i)
-  else false.
-
 Lemma csimple_cases : forall E X K i vs st, is_simple (i_op i) = true ->
   (exists vs' st', exec_simple E X i vs st = Ok (vs', st') /\ cexec_inst E X K i vs st = CNext vs' st') \/
   (exists e, exec_simple E X i vs st = Err e /\ cexec_inst E X K i vs st = CStop (CHalt (HStuck e)) st).
@@ -711,31 +701,51 @@ Proof.
     + rewrite !PositiveMap.gso by assumption. symmetry. apply (bind_other _ _ _ _ Bp x Np).
 Qed.
 
-Lemma cswap_ok : forall E X K p i R vs st, ccross_ok p i = true ->
+(* `i` (later in `before`) is moved in front of `p`; D = variables known to be defined at that point *)
+Definition ccross_ok (D : list positive) (p i : inst) : bool :=
+  if is_plain_unknown (i_op p) then true
+  else if is_simple (i_op p) then
+    if is_simple (i_op i) then
+      indepb p i && disjointb (sem_writes (i_op p)) (FP (i_op i)) && disjointb (sem_writes (i_op i)) (FP (i_op p))
+    else if is_guard (i_op i) then disj (i_outs p) (op_vars (i_args i))
+    else if is_invoke (i_op i) then nilb (FP (i_op p)) && indepb p i
+    else is_plain_unknown (i_op i)
+  else if is_invoke (i_op p) then safe_arith D i && indepb p i
+  else false.
+
+Lemma cswap_ok : forall E X K D p i R vs st, defined D vs -> ccross_ok D p i = true ->
   cle (cexec_insts E X K (p :: i :: R) vs st) (cexec_insts E X K (i :: p :: R) vs st).
 Proof.
-  intros E X K p i R vs st C. unfold ccross_ok in C.
+  intros E X K D p i R vs st DF C. unfold ccross_ok in C.
   destruct (is_plain_unknown (i_op p)) eqn:Up.
   { left. simpl. pose proof (plain_unknown_stuck E X K p vs st Up) as S. destruct (cexec_inst E X K p vs st); simpl in *; try contradiction; auto. }
-  destruct (is_simple (i_op p)) eqn:Sp; [|discriminate].
-  destruct (is_simple (i_op i)) eqn:Si.
-  - apply andb_true_iff in C. destruct C as [C D2]. apply andb_true_iff in C. destruct C as [I D1]. apply cswap_simple; auto.
-  - destruct (is_guard (i_op i)) eqn:G; [apply cswap_guard; auto|].
-    destruct (is_invoke (i_op i)) eqn:Iv.
-    + apply andb_true_iff in C. destruct C as [F ID]. apply cswap_invoke; auto. destruct (FP (i_op p)); [reflexivity|discriminate].
-    + left. simpl. destruct (csimple_cases E X K p vs st Sp) as [[vs1 [st1 [P1 Q1]]]|[e [P1 Q1]]]; rewrite Q1; [|exact I].
-      pose proof (plain_unknown_stuck E X K i vs1 st1 C) as S. destruct (cexec_inst E X K i vs1 st1); simpl in *; try contradiction; auto.
+  destruct (is_simple (i_op p)) eqn:Sp.
+  - destruct (is_simple (i_op i)) eqn:Si.
+    + apply andb_true_iff in C. destruct C as [C D2]. apply andb_true_iff in C. destruct C as [I D1]. apply cswap_simple; auto.
+    + destruct (is_guard (i_op i)) eqn:G; [apply cswap_guard; auto|].
+      destruct (is_invoke (i_op i)) eqn:Iv.
+      * apply andb_true_iff in C. destruct C as [F ID]. apply cswap_invoke; auto. destruct (FP (i_op p)); [reflexivity|discriminate].
+      * left. simpl. destruct (csimple_cases E X K p vs st Sp) as [[vs1 [st1 [P1 Q1]]]|[e [P1 Q1]]]; rewrite Q1; [|exact I].
+        pose proof (plain_unknown_stuck E X K i vs1 st1 C) as S. destruct (cexec_inst E X K i vs1 st1); simpl in *; try contradiction; auto.
+  - destruct (is_invoke (i_op p)) eqn:Ivp; [|discriminate].
+    apply andb_true_iff in C. destruct C as [SA ID]. eapply cswap_invoke_early; eauto.
 Qed.
 
-Lemma cmove_front : forall E X K i post pre vs st, forallb (fun p => ccross_ok p i) pre = true ->
+Lemma cle_cons_D : forall E X K k l1 l2 vs st,
+  (forall vs' st', cexec_inst E X K k vs st = CNext vs' st' -> cle (cexec_insts E X K l1 vs' st') (cexec_insts E X K l2 vs' st')) ->
+  cle (cexec_insts E X K (k :: l1) vs st) (cexec_insts E X K (k :: l2) vs st).
+Proof. intros E X K k l1 l2 vs st H. simpl. destruct (cexec_inst E X K k vs st) eqn:EK; auto; apply cle_refl. Qed.
+
+Lemma cmove_front : forall E X K D i post pre vs st, defined D vs -> forallb (fun p => ccross_ok D p i) pre = true ->
   cle (cexec_insts E X K (pre ++ i :: post) vs st) (cexec_insts E X K (i :: pre ++ post) vs st).
 Proof.
-  intros E X K i post. induction pre as [|p pre IH]; intros vs st H.
+  intros E X K D i post. induction pre as [|p pre IH]; intros vs st DF H.
   - apply cle_refl.
   - simpl in H. apply andb_true_iff in H. destruct H as [Hp Hr].
     eapply cle_trans.
-    + apply (cle_cons E X K p (pre ++ i :: post) (i :: pre ++ post) vs st). intros. apply IH. assumption.
-    + apply cswap_ok. assumption.
+    + apply (cle_cons_D E X K p (pre ++ i :: post) (i :: pre ++ post) vs st). intros vs' st' EK. apply IH; auto.
+      eapply defined_weaken. * eapply cexec_next_defined; eauto. * intros x Hx. apply step_D_incl. assumption.
+    + eapply cswap_ok; eauto.
 Qed.
 
 Lemma cflip_exec : forall E X K i j vs st, flip_match i j = true -> cexec_inst E X K i vs st = cexec_inst E X K j vs st.
@@ -752,34 +762,34 @@ Proof.
   destruct NC as [N1 N2]. rewrite (cexec_noncall E X K i vs st N1), (cexec_noncall E X K j vs st N2), (flip_exec E X i j vs st F). reflexivity.
 Qed.
 
-Fixpoint cdft_perm (la lb : list inst) : bool :=
+Fixpoint cdft_perm (D : list positive) (la lb : list inst) : bool :=
   match la with
   | [] => nilb lb
   | j :: ra =>
       match extract j [] lb with
-      | Some (pre, i, post) => forallb (fun p => ccross_ok p i) pre && cdft_perm ra (pre ++ post)
+      | Some (pre, i, post) => forallb (fun p => ccross_ok D p i) pre && cdft_perm (step_D j D) ra (pre ++ post)
       | None => false
       end
   end.
 
-Lemma cdft_perm_sound : forall E X K la lb vs st, cdft_perm la lb = true ->
+Lemma cdft_perm_sound : forall E X K la D lb vs st, defined D vs -> cdft_perm D la lb = true ->
   cle (cexec_insts E X K lb vs st) (cexec_insts E X K la vs st).
 Proof.
-  intros E X K. induction la as [|j ra IH]; intros lb vs st H; simpl in H.
+  intros E X K. induction la as [|j ra IH]; intros D lb vs st DF H; simpl in H.
   - destruct lb; [apply cle_refl|discriminate].
   - destruct (extract j [] lb) as [[[pre i] post]|] eqn:EX; [|discriminate].
     apply andb_true_iff in H. destruct H as [C P].
     destruct (extract_spec j lb [] pre i post EX) as [F EQ]. simpl in EQ. subst lb.
-    eapply cle_trans. { apply cmove_front. exact C. }
+    eapply cle_trans. { eapply cmove_front; eauto. }
     assert (HD : cexec_insts E X K (i :: pre ++ post) vs st = cexec_insts E X K (j :: pre ++ post) vs st).
     { simpl. rewrite (cflip_exec E X K i j vs st F). reflexivity. }
-    rewrite HD. apply cle_cons. intros. apply IH. assumption.
+    rewrite HD. apply cle_cons_D. intros vs' st' EK. eapply IH; eauto. eapply cexec_next_defined; eauto.
 Qed.
 
 Definition cdft_block (lb la : list inst) : bool :=
   let (pb, rb) := split_phis lb in
   let (pa, ra) := split_phis la in
-  (if list_eq_dec inst_eq_dec pb pa then true else false) && cdft_perm ra rb.
+  (if list_eq_dec inst_eq_dec pb pa then true else false) && cdft_perm [] ra rb.
 
 Definition cdft_check (b a : func) : bool := same_frame b a && blocks_match cdft_block b a.
 
@@ -812,6 +822,6 @@ Proof.
   2:{ rewrite HA in EA1. discriminate. }
   destruct HA as [-> HA]. rewrite HA in EA1. inversion EA1. subst va2.
   (* before's body on vb1  <=  after's body on vb1 (same handler)  ~  after's body on va1 with the related handler *)
-  eapply cle_sim3. { apply (cdft_perm_sound E X Kb ra rb vb1 st PM). }
+  eapply cle_sim3. { apply (cdft_perm_sound E X Kb ra [] rb vb1 st); [intros x []|exact PM]. }
   apply cexec_insts_self; auto.
 Qed.
